@@ -218,7 +218,11 @@ void CommandExecutor::fadeColorOfLEDStrip(sb_rgb_color_t color)
     m_transitionHandler.endColor = color;
     m_transition.setEasingMode(easingMode);
     m_transition.start(actualDuration, m_currentCommandStartTime);
-    m_transition.step(m_transitionHandler, now);
+    if (!m_transition.step(m_transitionHandler, now)) {
+        // Zero-length transition: it is over already, so the next transition
+        // has to start from its end color
+        m_transitionHandler.startColor = m_transitionHandler.endColor;
+    }
 }
 
 Trigger* CommandExecutor::findTriggerForChannelIndex(uint8_t channelIndex)
